@@ -290,7 +290,7 @@ Section GsProof.
           - rewrite sumn_mul_r. rewrite fdiv_mul. reflexivity.
           - intros t Ht. rewrite Hv, Hq by assumption. rewrite fdiv_mul. ring. }
         rewrite Hd, Hv, Hq by assumption.
-        set (s := sqrtf (snd un)) in *. rewrite <- Hsq. field. assumption.
+        unfold Mat_Core.vec in *. set (s := sqrtf (snd un)) in *. rewrite <- Hsq. field. assumption.
     Qed.
 
     Lemma Forall2_snoc {A B} (R : A -> B -> Prop) l l' x y :
@@ -359,7 +359,7 @@ Section GsProof.
           rewrite sumn_mul_r, Hsum. ring. }
         rewrite Hz, Hthr. reflexivity. }
       rewrite Hfix, !Hq by assumption.
-      set (s := sqrtf (snd un)) in *. rewrite <- Hsq. field. assumption.
+      unfold Mat_Core.vec in *. set (s := sqrtf (snd un)) in *. rewrite <- Hsq. field. assumption.
     Qed.
   End WithSqrt.
 End GsProof.
